@@ -53,7 +53,7 @@ var neighbourhoods = []nb{
 // pre, option, table cell, button, heading, ...): the matching end tag in the value must stay text.
 var containerTags = []string{"textarea", "title", "pre", "option", "td", "li", "button", "h1", "a", "label", "code", "summary"}
 
-var sinks = []string{"in:textarea", "in:title", "in:pre", "in:option", "in:td", "in:li", "in:button", "in:h1", "in:a", "in:label", "in:code", "in:summary", "text", "vtext", "attr", "bound", "vbind", "class", "style", "loop", "loopattr", "loopchild", "incstatic", "incbound", "incattr", "slotprop", "layout", "layoutattr", "ifself", "elseself"}
+var sinks = []string{"in:textarea", "in:title", "in:pre", "in:option", "in:td", "in:li", "in:button", "in:h1", "in:a", "in:label", "in:code", "in:summary", "text", "vtext", "attr", "bound", "vbind", "class", "style", "loop", "loopattr", "loopchild", "incstatic", "incbound", "incattr", "inctplroot", "inctplrootattr", "slotprop", "layout", "layoutattr", "ifself", "elseself"}
 var encs = []string{"bare", "if", "else", "tplif", "nested", "loopchild", "elseif"}
 
 // tokens: the hostile alphabet. The first coreN are enumerated exhaustively.
@@ -151,6 +151,16 @@ func build(c Case) program {
 		return program{files: map[string]string{
 			"page.vuego": wrap(c.Enc, `<template include="c.vuego" :p="v"></template>`),
 			"c.vuego":    `<div><p data-m="s" title="` + n.LS + `{{ p }}` + n.RS + `">x</p></div>`,
+		}, attr: "title", useNb: true}
+	case "inctplroot":
+		return program{files: map[string]string{
+			"page.vuego": wrap(c.Enc, `<template include="c.vuego" :p="v" q="`+n.LS+`{{ v }}`+n.RS+`"></template>`),
+			"c.vuego":    `<template :required="p"><div><p data-m="s">{{ q }}</p><i title="{{ p }}" :lang="p">{{ p }}</i><u v-for="o in one" v-text="p"></u></div></template>`,
+		}, useNb: true, jsonish: true}
+	case "inctplrootattr":
+		return program{files: map[string]string{
+			"page.vuego": wrap(c.Enc, `<template include="c.vuego" :p="v"></template>`),
+			"c.vuego":    `<template><div><p data-m="s" title="` + n.LS + `{{ p }}` + n.RS + `" :lang="p">{{ p }}</p></div></template>`,
 		}, attr: "title", useNb: true}
 	case "slotprop":
 		return program{files: map[string]string{
